@@ -225,7 +225,7 @@ theorem FrameInv.step {st : Core} (hst : NodesOK st) {o : Nat} {s : Core} (f : F
         · exact Or.inr (Or.inl ⟨x, c, hx, hc, rfl⟩)
         · exact Or.inr (Or.inr hge)
     -- what the closure owns is dropped after it has run: an owner of the scope
-    have mem_clos : ∀ g, g ∈ closureFrames st.cur c → ∃ ow', c.drops = some ow' ∧ g = Frame.drop ow' true := by
+    have mem_clos : ∀ g, g ∈ closureFrames s.cur c → ∃ ow', c.drops = some ow' ∧ g = Frame.drop ow' true := by
       intro g hg
       unfold closureFrames at hg
       split at hg
@@ -234,7 +234,7 @@ theorem FrameInv.step {st : Core} (hst : NodesOK st) {o : Nat} {s : Core} (f : F
         · cases hg
         · exact ⟨ow', hd, List.mem_singleton.mp hg⟩
       · cases hg
-    have vis' : ∀ x l2, Frame.visit x l2 ∈ closureFrames st.cur c ++ fs ∨ Frame.drop x l2 ∈ closureFrames st.cur c ++ fs →
+    have vis' : ∀ x l2, Frame.visit x l2 ∈ closureFrames s.cur c ++ fs ∨ Frame.drop x l2 ∈ closureFrames s.cur c ++ fs →
         Touch st o x := by
       intro x l2 hx
       rcases hx with hx | hx
@@ -248,13 +248,13 @@ theorem FrameInv.step {st : Core} (hst : NodesOK st) {o : Nat} {s : Core} (f : F
           · exact Touch.cdrop hy hc hd
           · rw [hnone] at hd; cases hd
         · exact tail_visits x l2 (Or.inr hx)
-    have rem' : ∀ k l2, Frame.remove k l2 ∈ closureFrames st.cur c ++ fs →
+    have rem' : ∀ k l2, Frame.remove k l2 ∈ closureFrames s.cur c ++ fs →
         (∃ x, Touch st o x ∧ k ∈ nodesOf st x) ∨ ¬ Issued st.arena k := by
       intro k l2 hk
       rcases List.mem_append.mp hk with hk | hk
       · obtain ⟨_, _, he⟩ := mem_clos _ hk; cases he
       · exact tail_removes k l2 hk
-    have run' : ∀ c' ow' l2, Frame.run c' ow' l2 ∈ closureFrames st.cur c ++ fs →
+    have run' : ∀ c' ow' l2, Frame.run c' ow' l2 ∈ closureFrames s.cur c ++ fs →
         (∃ x, Touch st o x ∧ c' ∈ cleanupsOf st x) ∨ (st.nextCid ≤ c'.cid ∧ c'.drops = none) := by
       intro c' ow' l2 hk
       rcases List.mem_append.mp hk with hk | hk
